@@ -61,41 +61,71 @@ func pickSize(r *mon.Rand, g cfg, thorough bool) int {
 // constructor's verdict against the documented length bounds. It returns nil when the
 // case is over (a verdict was wrong, or nothing to continue with).
 func instantiate(c *mon.Case, g cfg, lv level, entry int, e, n, ps []byte) *pair {
-	p := &pair{c: c, g: g, lv: lv}
-	var lib libGen
-	var fn string
-	var err error
-	t0 := time.Now()
-	ok := c.Call("constructor", func() { lib, fn, err = newLib(g, entry, lv, e, n, ps) })
-	t1 := time.Now()
-	if !ok {
+	ps2 := instantiateAll(c, g, lv, []int{entry}, e, n, ps)
+	if ps2 == nil {
 		return nil
 	}
-	p.logf("%s(level=%s, entropy=%d, nonce=%d, pers=%d)", fn, lv.ref.Name, len(e), len(n), len(ps))
-	model, merr := newModel(g, lv, e, n, ps)
-	minE, minN := g.nominal()
-	c.Class("%s/new/e=%s/n=%s/p=%s/%s", g.name(), lenClass(len(e), minE), lenClass(len(n), minN), lenClass(len(ps), minE), fn)
-	switch {
-	case merr != nil && err != nil:
-		c.Event("constructor_refused", 1)
-		return nil
-	case merr != nil:
-		p.fail("accept", "%s accepted entropy=%d nonce=%d bytes; documented bounds refuse it (%v)", fn, len(e), len(n), merr)
-		return nil
-	case err != nil:
-		if g.mech == "hmac" && g.mode == ref.GM && (len(e) < g.h.Size || len(n) < g.h.Size/2) {
-			// GM/T 0105 defines no HMAC generator; the package applies the GM minimum on reseed only.
-			// A constructor applying it too is not wrong.
-			c.Event("constructor_refused_hmac_gm_tolerated", 1)
+	return ps2[0]
+}
+
+// instantiateAll builds one generator per element of entries from the SAME caller memory (the three inputs laid out
+// by lay, see arena.go): the constructors must leave it unchanged, so the second object is built from what the first
+// was built from, and must not keep a reference to it: it is inverted before instantiateAll returns. nil when the case
+// is over.
+func instantiateAll(c *mon.Case, g cfg, lv level, entries []int, e, n, ps []byte) []*pair {
+	a, sl := lay(c.R, part{"entropy", e, false}, part{"nonce", n, false}, part{"personalization", ps, false})
+	defer a.scribble()
+	var out []*pair
+	for k, entry := range entries {
+		p := &pair{c: c, g: g, lv: lv, last: a}
+		var lib libGen
+		var fn string
+		var err error
+		t0 := time.Now()
+		ok := c.Call("constructor", func() { lib, fn, err = newLib(g, entry, lv, sl[0], sl[1], sl[2]) })
+		t1 := time.Now()
+		if !ok {
 			return nil
 		}
-		p.fail("reject", "%s(entropy=%d, nonce=%d, pers=%d) failed: %v", fn, len(e), len(n), len(ps), err)
-		return nil
+		p.logf("%s(level=%s, entropy=%d, nonce=%d, pers=%d) [%s]", fn, lv.ref.Name, len(e), len(n), len(ps), a.layout())
+		c.Event("caller_memory_checks", 1)
+		if ch := a.changed(); ch != "" {
+			p.fail("oob", "%s(entropy=%d, nonce=%d, pers=%d) modified the caller's memory: %s", fn, len(e), len(n), len(ps), ch)
+			return nil
+		}
+		model, merr := newModel(g, lv, e, n, ps)
+		minE, minN := g.nominal()
+		if k == 0 {
+			c.Class("%s/new/e=%s/n=%s/p=%s/%s", g.name(), lenClass(len(e), minE), lenClass(len(n), minN), lenClass(len(ps), minE), fn)
+			if a.shared() {
+				c.Event("constructor_inputs_cut_from_one_buffer", 1)
+			} else {
+				c.Event("constructor_inputs_in_separate_allocations", 1)
+			}
+		}
+		switch {
+		case merr != nil && err != nil:
+			c.Event("constructor_refused", 1)
+			return nil
+		case merr != nil:
+			p.fail("accept", "%s accepted entropy=%d nonce=%d bytes; documented bounds refuse it (%v)", fn, len(e), len(n), merr)
+			return nil
+		case err != nil:
+			if g.mech == "hmac" && g.mode == ref.GM && (len(e) < g.h.Size || len(n) < g.h.Size/2) {
+				// GM/T 0105 defines no HMAC generator; the package applies the GM minimum on reseed only.
+				// A constructor applying it too is not wrong.
+				c.Event("constructor_refused_hmac_gm_tolerated", 1)
+				return nil
+			}
+			p.fail("reject", "%s(entropy=%d, nonce=%d, pers=%d) failed: %v", fn, len(e), len(n), len(ps), err)
+			return nil
+		}
+		c.Event("constructor_ok", 1)
+		p.lib, p.model = lib, model
+		p.seedStart, p.seedReturn = t0, t1
+		out = append(out, p)
 	}
-	c.Event("constructor_ok", 1)
-	p.lib, p.model = lib, model
-	p.seedStart, p.seedReturn = t0, t1
-	return p
+	return out
 }
 
 // checkNeedReseed compares the NeedReseed() gate with the model (time rule bracketed).
@@ -124,12 +154,15 @@ func (p *pair) checkNeedReseed() {
 func history(x *mon.Ctx) {
 	selfTests(x)
 	cfgs := configs()
-	per := x.Scale(500, 5400) // histories per configuration (28 configurations)
+	per := x.Scale(500, 5400) // histories per primary configuration (20 of the 40 configurations; the others: two fifths)
 	for i := 0; i < per; i++ {
 		for _, g := range cfgs {
+			if !g.primary && i >= per*2/5 {
+				continue
+			}
 			hp := planHistory(x, g, i)
-			c := x.Begin("history cfg=%s #%d level=%s constructor=%s entropy=%d nonce=%d pers=%d(nil=%v) ops=%d (operations and arguments are drawn from the case PRNG; the operation list is attached to a violation)",
-				g.name(), i, hp.lv.ref.Name, entryName(g, hp.entry), hp.le, hp.ln, hp.lp, hp.nilPers, hp.nops)
+			c := x.Begin("history cfg=%s #%d level=%s constructor=%s entropy=%d nonce=%d pers=%d(nil=%v) ops=%d twin=%v (operations, arguments and the layout of the arguments in caller memory are drawn from the case PRNG; the operation list is attached to a violation)",
+				g.name(), i, hp.lv.ref.Name, entryName(g, hp.entry), hp.le, hp.ln, hp.lp, hp.nilPers, hp.nops, hp.twin)
 			if c == nil {
 				continue
 			}
@@ -160,6 +193,7 @@ type histPlan struct {
 	le, ln, lp int
 	nilPers    bool
 	nops       int
+	twin       bool // a second generator is built from the same caller memory through the other constructor and used in between
 }
 
 func planHistory(x *mon.Ctx, g cfg, i int) histPlan {
@@ -177,6 +211,7 @@ func planHistory(x *mon.Ctx, g cfg, i int) histPlan {
 	hp.lp = []int{0, 0, 0, 1, minE - 1, minE, 2 * minE, 200}[r.Intn(8)]
 	hp.nilPers = hp.lp == 0 && r.Bool()
 	hp.nops = r.Range(12, 30)
+	hp.twin = r.Intn(8) == 0
 	return hp
 }
 
@@ -201,19 +236,39 @@ func oneHistory(x *mon.Ctx, c *mon.Case, g cfg, hp histPlan) {
 	if !hp.nilPers {
 		ps = r.Bytes(lp)
 	}
-	p := instantiate(c, g, lv, entry, r.Bytes(le), r.Bytes(ln), ps)
-	if p == nil {
+	entries := []int{entry}
+	if hp.twin {
+		entries = []int{entry, 1 - entry}
+	}
+	pq := instantiateAll(c, g, lv, entries, r.Bytes(le), r.Bytes(ln), ps)
+	if pq == nil {
 		if c.Failed() {
 			return
 		}
 		// refused as documented: continue the case with a well-formed instantiation
-		p = instantiate(c, g, lv, entry, r.Bytes(2*minE), r.Bytes(2*minN), ps)
-		if p == nil {
+		pq = instantiateAll(c, g, lv, entries, r.Bytes(2*minE), r.Bytes(2*minN), ps)
+		if pq == nil {
 			if !c.Failed() {
 				c.Fail("reject", "%s: constructor refused entropy=%d nonce=%d bytes", g.name(), 2*minE, 2*minN)
 			}
 			return
 		}
+	}
+	p := pq[0]
+	var q *pair // the twin: same inputs, its own history; the two objects must not influence each other
+	if hp.twin {
+		q = pq[1]
+	}
+	twinOp := func() {
+		if q == nil || q.dead || r.Intn(3) != 0 {
+			return
+		}
+		if q.model.NeedReseed() {
+			q.reseed(r.Bytes(minE+r.Intn(9)), pickAddl(r))
+			return
+		}
+		q.generate(1+r.Intn(g.block()), pickAddl(r))
+		c.Event("twin_operations", 1)
 	}
 	if got, want := p.lib.MaxBytesPerRequest(), p.model.MaxRequest(); got != want {
 		p.fail("mismatch", "%s MaxBytesPerRequest()=%d; documented: %d", g.name(), got, want)
@@ -230,6 +285,7 @@ func oneHistory(x *mon.Ctx, c *mon.Case, g cfg, hp histPlan) {
 		if ex {
 			pr = 40
 		}
+		twinOp()
 		if r.Intn(100) < pr {
 			e := r.Bytes(pickLen(r, minE, 25))
 			addl := pickAddl(r)
@@ -258,6 +314,15 @@ func oneHistory(x *mon.Ctx, c *mon.Case, g cfg, hp histPlan) {
 	p.checkNeedReseed()
 	if res := p.generate(g.block(), nil); res != "ok" && res != "time-gap" && res != "time" && !c.Failed() {
 		p.fail("reject", "%s: Generate after a successful Reseed: %s", g.name(), res)
+	}
+	if q != nil && !q.dead {
+		if q.model.NeedReseed() {
+			q.reseed(r.Bytes(minE), nil)
+		}
+		if res := q.generate(g.block(), nil); res != "ok" && res != "time-gap" && res != "time" && !c.Failed() {
+			q.fail("reject", "%s: Generate on the twin generator: %s", g.name(), res)
+		}
+		c.Event("twin_histories", 1)
 	}
 	c.Event("histories", 1)
 	c.Event("interval_crossings", crossings)
